@@ -141,16 +141,19 @@ Theorem C10_ack_rst_ignored : forall cfg h mc req out,
 Proof. exact not_conn_silent. Qed.
 Print Assumptions C10_ack_rst_ignored.
 
-(* ---- otherwise exactly the handler registered for that path and method runs once ---- *)
+(* ---- otherwise exactly the handler registered for that path and method runs once.
+   sp_handler_outs = dp_invoke on the selected resource for each admitted view of the options
+   (sp_views: as libcoap edits them = sp_handler_out, unedited, or one edit only) ---- *)
 Theorem C10_handler_iff_unblocked : forall cfg h mc req,
-  conn req -> dp_bad_class (m_code req) = false -> dp_is_request (m_code req) = true ->
+  0 <= m_type req <= 3 -> conn req -> dp_bad_class (m_code req) = false -> dp_is_request (m_code req) = true ->
   sp_blocked cfg mc req = false ->
-  forall out, dp_allowed cfg h mc req out <-> out = sp_handler_out cfg h mc req.
+  forall out, dp_allowed cfg h mc req out <-> In out (sp_handler_outs cfg h mc req).
 Proof. exact unblocked_runs_handler. Qed.
 Print Assumptions C10_handler_iff_unblocked.
 
 Theorem C10_handler_once : forall cfg h mc req,
   sp_target cfg req <> TWellKnown ->
+  dp_observe (sp_target cfg req) (sp_req' cfg req) <> ObsBlocked ->
   dp_calls (sp_handler_out cfg h mc req) =
   [mkHreq (dp_target_rid (sp_target cfg req)) (m_code req) (sp_req' cfg req) (dp_query cfg (m_opts req))].
 Proof. exact handler_call. Qed.
@@ -169,6 +172,14 @@ Theorem C10_handler_sees_request : forall cfg req,
   m_mid (sp_req' cfg req) = m_mid req.
 Proof. exact handler_sees_request. Qed.
 Print Assumptions C10_handler_sees_request.
+
+(* the relation also admits the unedited options and each edit alone *)
+Theorem C10_handler_views : forall cfg req o, In o (sp_views cfg req) ->
+  map fst o = map fst (m_opts req) /\
+  (forall n, n <> DP_BLOCK2 -> n <> DP_HOP_LIMIT -> dp_values n o = dp_values n (m_opts req)) /\
+  dp_uri_path cfg o = dp_uri_path cfg (m_opts req) /\ dp_query cfg o = dp_query cfg (m_opts req).
+Proof. exact handler_views. Qed.
+Print Assumptions C10_handler_views.
 
 (* the resource: registered path first; nothing iff no such path, not /.well-known/core and no
    unknown-resource handler for the method *)
@@ -190,10 +201,14 @@ Theorem C10_lookup_wellknown : forall cfg code,
 Proof. exact lookup_wellknown. Qed.
 Print Assumptions C10_lookup_wellknown.
 
-(* ---- what the handler sets is what is sent, subject to No-Response and multicast rules ---- *)
+(* ---- what the handler sets is what is sent, subject to No-Response and multicast rules.
+   dp_resp_opts: the handler's coap_add_option() calls in order (after the Observe option of a
+   new registration on an observable resource); dp_sent_opts: Block1 off an error response ---- *)
 Theorem C10_what_is_set_is_sent : forall cfg h mc req,
   (m_type req = NR_CON \/ m_type req = NR_NON) ->
   (match sp_target cfg req with TRes _ | TUnknown _ _ => True | _ => False end) ->
+  let obs := dp_observe (sp_target cfg req) (sp_req' cfg req) in
+  obs <> ObsBlocked ->
   let i := mkHreq (dp_target_rid (sp_target cfg req)) (m_code req) (sp_req' cfg req)
                   (dp_query cfg (m_opts req)) in
   let r := h i in
@@ -207,7 +222,8 @@ Theorem C10_what_is_set_is_sent : forall cfg h mc req,
   | NrEmptyAck => [EvTx false (dp_empty NR_ACK (m_mid req))]
   | NrSendAsIs =>
       [EvTx false (mkMsg (dp_resp_type req) (hr_code r) (m_mid req) (m_token req)
-                         (dp_sent_opts false (hr_code r) true (hr_opts r)) (hr_payload r))]
+                         (dp_sent_opts false (hr_code r) true (dp_resp_opts obs (hr_code r) (hr_opts r)))
+                         (hr_payload r))]
   end.
 Proof. exact handler_out_is. Qed.
 Print Assumptions C10_what_is_set_is_sent.
@@ -247,7 +263,7 @@ Theorem C10_nonvacuous :
    EvTx false (mkMsg 2 69 4660 [170; 187] [(12, [0])] [104; 105])] /\
   sp_blocked ex_cfg false (ex_get 0 [97] []) = false /\
   dp_in_scope ex_cfg ex_handler (ex_get 0 [97] []) /\
-  dp_allowed_outs ex_cfg ex_handler false (ex_get 0 [97] []) =
-  [dp_serve ex_cfg ex_handler false (ex_get 0 [97] [])].
+  (forall out, dp_allowed ex_cfg ex_handler false (ex_get 0 [97] []) out ->
+               out = dp_serve ex_cfg ex_handler false (ex_get 0 [97] [])).
 Proof. exact ex_handler_runs. Qed.
 Print Assumptions C10_nonvacuous.
